@@ -95,7 +95,45 @@ def device_variants(rng, quick):
     d.layer.conductivity = 3.5
     d.layer.z0 = 0.25
     out.append(("bar_nomesh_conductivity", d))
+    # boundary values of the layer constants (gamma = 0: no inelastic scattering)
+    d = zoo.make_device("bar", rng, mesh=False, gamma=0.0)
+    d.layer.z0 = -0.5
+    out.append(("bar_nomesh_gamma0", d))
     return out
+
+
+def layer_roundtrips(ctx):
+    """every layer constant comes back as saved, at ordinary and at boundary values (0, negative z0, None)"""
+    import itertools
+    p = os.path.join(str(ctx.work), "layers.h5")
+    first = None
+    with h5py.File(p, "w") as f:
+        for i, (gamma, u, z0, cond, lam) in enumerate(itertools.product((0.0, 10.0, 0.37), (5.79, 0.0, 1.0), (0.0, 0.25, -1.5), (None, 3.5, 0.0), (2.0, 0.0))):
+            if lam == 0.0 and (u, cond) != (5.79, None):
+                continue
+            try:
+                L = tdgl.Layer(london_lambda=lam, coherence_length=0.5, thickness=0.1, gamma=gamma, u=u, z0=z0, conductivity=cond)
+            except Exception:
+                continue
+            g = f.create_group(f"L{i}")
+            ctx.case(("layer", gamma, u, z0, cond, lam), nontrivial=True)
+            ctx.count("layer_roundtrips")
+            try:
+                L.to_hdf5(g)
+                back = tdgl.Layer.from_hdf5(g)
+            except Exception as e:  # noqa
+                rp = dict(layer=dict(gamma=gamma, u=u, z0=z0, conductivity=cond, london_lambda=lam), error=f"{type(e).__name__}: {str(e)[:120]}")
+                ctx.fail("layer-roundtrip", f"saving / loading Layer(gamma={gamma}, u={u}, z0={z0}, conductivity={cond}, london_lambda={lam}) raised {rp['error']}", rp)
+                first = first or dict(key="layer-roundtrip", **rp)
+                continue
+            bad = [k for k in ("london_lambda", "coherence_length", "thickness", "conductivity", "u", "gamma", "z0")
+                   if (getattr(L, k) is None) != (getattr(back, k) is None) or (getattr(L, k) is not None and float(getattr(L, k)) != float(getattr(back, k)))]
+            if bad or not (L == back):
+                rp = dict(layer=dict(gamma=gamma, u=u, z0=z0, conductivity=cond, london_lambda=lam), differs=bad)
+                ctx.fail("layer-roundtrip", f"Layer(gamma={gamma}, u={u}, z0={z0}, conductivity={cond}, london_lambda={lam}) read back differs in {bad}: " +
+                         ", ".join(f"{k}: saved {getattr(L, k)} loaded {getattr(back, k)}" for k in bad[:3]), rp)
+                first = first or dict(key="layer-roundtrip", **rp)
+    return first
 
 
 def device_roundtrips(ctx):
@@ -305,6 +343,22 @@ def solution_roundtrips(ctx, stop_first=False):
         again = tdgl.Solution.from_hdf5(p2)
         if not again.equals(sol) or again.options != sol.options:
             fail("solution-copy", "solution saved to a new file does not load back equal")
+        # the solution outlives its file: delete the HDF5 file, save what is in memory to a new file, load it back
+        try:
+            keep_step = sol.solve_step
+            td, dyn = sol.tdgl_data, sol.dynamics
+            p3 = path.replace(".h5", "_mem.h5")
+            if os.path.exists(p3):
+                os.remove(p3)
+            sol.delete_hdf5()
+            sol.to_hdf5(p3)
+            mem = tdgl.Solution.from_hdf5(p3)
+            bad3 = [f.name for f in dataclasses.fields(td) if f.name not in ("state",) and not (getattr(td, f.name) == getattr(mem.tdgl_data, f.name)
+                    if np.isscalar(getattr(td, f.name)) else arr_eq(getattr(td, f.name), getattr(mem.tdgl_data, f.name)))]
+            if bad3 or not arr_eq(dyn.dt, mem.dynamics.dt) or not (mem.dynamics == dyn) or mem.options != sol.options:
+                fail("solution-in-memory-save", f"a solution saved from memory (its file deleted) does not load back unchanged: {bad3[:4]}")
+        except Exception as e:  # noqa
+            fail("solution-in-memory-save", f"saving a solution whose file was deleted / loading it back raised {type(e).__name__}: {str(e)[:100]}")
         if len(ctx.samples) < 4:
             ctx.samples.append(dict(tag, frames=hi - lo + 1, vector_potential=repr(dr["A"])[:80]))
         if first and stop_first:
@@ -373,6 +427,7 @@ def model_part(ctx):
 
 
 def run(ctx):
+    layer_roundtrips(ctx)
     device_roundtrips(ctx)
     solution_roundtrips(ctx)
     if os.environ.get("C14_NOMODEL") != "1":
@@ -381,7 +436,7 @@ def run(ctx):
 
 def search(ctx):
     ctx.rng = np.random.default_rng(ctx.seed + 4242)
-    return device_roundtrips(ctx) or solution_roundtrips(ctx, stop_first=True)
+    return layer_roundtrips(ctx) or device_roundtrips(ctx) or solution_roundtrips(ctx, stop_first=True)
 
 
 def replay(payload):
